@@ -68,6 +68,7 @@ func runC16(r *engine.Run) {
 	r.Rule("ORDER-critical", "Insert, Delete, MergeChanges and MergeDB acquire the trie's write lock before the first read of the root and keep it (deferred unlock) until after the last root update: each mutating operation is a single critical section")
 	r.Rule("LOCK-reentrant", "no Lock or RLock of a mutex is reachable while the same goroutine already holds that mutex of the same object: held-on-receiver facts (must-lockset inside a function) are carried into callees only along calls made on the same receiver value, over every call chain; sync mutexes are not reentrant (a second RLock deadlocks as soon as a writer queues up between the two)")
 	r.Rule("LOCK-order", "two mutexes that are ever held together are always taken in the same order: an edge A -> B is recorded wherever B is acquired while A is held on every path (must-lockset, interprocedural over every function reachable from the entry set), and the graph over the distinct lock keys (owner type.field) has no cycle - a cycle is an ABBA deadlock that only a particular interleaving shows")
+	r.Rule("LOCK-statecache", "see C08: the state cache's plain fields are accessed only under their owner's mutex and its sync/atomic counters never plainly - getNode updates the transaction cache's hit/miss counters for every visited node while readers hold only the trie's read lock")
 	r.Rule("REF-livechange", "the change collector rewrites the change objects it holds in place (AddChange assigns the New field of the object found in its Changes map) under its own lock; therefore no function hands out a *NodeChange obtained from that map (into a slice element, an append or a return value): readers of a change set hold no lock, so GetChanges and the like hand out copies")
 	r.Rule("REF-poolput", "no function of the repository (the hash helpers the trie calls under its read lock included) touches an object after handing it back to a sync.Pool with Put: the next Get may give it to a concurrent caller")
 	r.Rule("PAIR-unlock", "every Lock/RLock of a mutex is followed on every path to a return of the acquiring function by the matching Unlock/RUnlock on the same mutex or by a deferred one registered on the path: no operation returns with the lock held (every later operation on the object would block)")
@@ -88,6 +89,9 @@ func runC16(r *engine.Run) {
 	lockOrder(r, "LOCK-order", w, 40)
 	refPoolPut(r, "REF-poolput")
 	refLiveChange(r, "REF-livechange")
+	// the trie's readers call into the transaction cache (hit/miss counters, lookups) while
+	// they hold only the trie's read lock: the cache's own discipline is part of this property
+	checkGuards(r, "LOCK-statecache", exportedEntries(r, "LOCK-statecache", pkgSC, scOwners), scOwners, scGuards)
 	whoReadOnly(r, "WHO-readonly")
 }
 
